@@ -302,6 +302,12 @@ func GetUncompressedReadCloser(zstd zstdimpl.ZstdImpl, f *os.File, expectedSize 
 		_ = f.Close()
 		return nil, err
 	}
+	if remainder > int64(len(uncompressedFirstChunk)) {
+		// The header's chunk size does not describe this chunk.
+		_ = f.Close()
+		return nil, fmt.Errorf("chunk %d holds %d bytes, cannot skip %d",
+			chunkNum, len(uncompressedFirstChunk), remainder)
+	}
 
 	if chunkNum == int64(len(h.chunkOffsets)-2) {
 		// Last chunk in the file.
@@ -407,6 +413,12 @@ func GetZstdReadCloser(zstd zstdimpl.ZstdImpl, f *os.File, expectedSize int64, o
 	if err != nil {
 		_ = f.Close()
 		return nil, err
+	}
+	if remainder > int64(len(uncompressedFirstChunk)) {
+		// The header's chunk size does not describe this chunk.
+		_ = f.Close()
+		return nil, fmt.Errorf("chunk %d holds %d bytes, cannot skip %d",
+			chunkNum, len(uncompressedFirstChunk), remainder)
 	}
 
 	chunkToRecompress := uncompressedFirstChunk[remainder:]
